@@ -1,7 +1,7 @@
 """Small interprocedural constant propagation for exit codes (i32 / Result<i32,_> / Option<i32>)."""
 import re
 
-from absint import explore, vkey, TooManyPaths
+from absint import explore, vkey, TooManyPaths, PURECALLS
 from common import short
 
 PURE = ("std::process::ExitStatus::code", "std::option::Option::<T>::unwrap_or", "std::process::ExitStatus::success")
@@ -63,6 +63,14 @@ class IntFlow:
         if v[0] == "cast":
             return self.resolve(fn, v[1], depth + 1)
         key = vkey(v)
+        pc = PURECALLS.get(v[1]) if v[0] == "atom" else None
+        if pc and pc[0] == "std::option::Option::<T>::unwrap_or" and len(pc[1]) == 2 and pc[1][0][0] == "agg":
+            # unwrap_or(<Some(x) | None built on this path>, d): the payload, or the default
+            a = pc[1][0]
+            if a[2] == "None":
+                return self.resolve(fn, pc[1][1], depth + 1)
+            if a[2] == "Some" and a[3]:
+                return self.resolve(fn, a[3][0], depth + 1)
         if key.startswith("residual("):
             return set()
         if key.startswith("frombool("):
